@@ -43,6 +43,9 @@ pub struct Case {
     pub image: Option<Vec<(String, String)>>,
     #[serde(default)]
     pub max_steps: Option<u64>,
+    /// Plan of the logsim engine (C12).
+    #[serde(default)]
+    pub log_plan: Option<crate::logsim::LogPlan>,
 }
 
 #[derive(Default, Clone, Debug, Serialize)]
